@@ -672,8 +672,8 @@ func (e *env) bubble(t *testing.T, sc *Scenario, r *vlib.Rand, maxSteps int, out
 					return false
 				}
 				// both are let go before anything else runs: the two failures are simultaneous
-				t1.gate <- gateRes{err: &callErr{st.V}}
-				t2.gate <- gateRes{err: &callErr{st.V2}}
+				t1.gate <- gateRes{err: mkErr(st.V, 0)}
+				t2.gate <- gateRes{err: mkErr(st.V2, 0)}
 				out.Lines = append(out.Lines, fmt.Sprintf("end2 %d err %d %d err %d", st.I, st.V, st.J, st.V2))
 				return true
 			}
